@@ -1,3 +1,105 @@
+import Mhd.Model.Nonce
 import Driver.Common
-/- stub: replaced by the builder of this engine -/
-def main : IO Unit := Driver.runEngine () (fun s _ => (s, ["bad-op"]))
+open Mhd.Nonce Mhd.Gen.Nonce Driver
+
+structure DSt where
+  tbl : Table
+  now : Nat
+
+def showOut : Out → String
+  | .added => "added"
+  | .refused => "refused"
+  | .ok => "ok"
+  | .stale => "stale"
+  | .wrong => "wrong"
+  | .hdr => "hdr"
+  | .fault => "fault"
+
+/-- NONCE_STD_LEN of algorithm index 0 = MD5, 1 = SHA-256, 2 = SHA-512/256 -/
+def stdLenOf : Nat → Option Nat
+  | 0 => some stdLenMd5
+  | 1 => some stdLenSha
+  | 2 => some stdLenSha
+  | _ => none
+
+def hex16 (m : Nat) : String :=
+  String.ofList ((List.range 16).map fun j => hexDigit ((m / 16 ^ (15 - j)) % 16))
+
+def showSlot (s : Slot) : String := s!"{s.nc}:{hex16 s.nmask.toNat}:{hexOfBytes s.nonce}"
+
+def U64 : Nat := 2 ^ 64
+
+def bad (s : DSt) : DSt × List String := (s, ["bad-op"])
+
+def stepLine (s : DSt) (ws : List String) : DSt × List String :=
+  match ws with
+  | ["table", n] => match n.toNat? with
+      | some k => if k ≤ 64 then ({ s with tbl := Table.init k }, ["ok"]) else bad s
+      | none => bad s
+  | ["clock", t] => match t.toNat? with
+      | some k => if k < U64 then ({ s with now := k }, ["ok"]) else bad s
+      | none => bad s
+  | ["add", ts, algo, salt, nonce] =>
+      match ts.toNat?, algo.toNat?.bind stdLenOf, bytesOfHex salt, bytesOfHex nonce with
+      | some t, some sl, some _, some n =>
+        if t ≥ U64 then bad s
+        else if !nonceFormatOk sl t n then (s, ["nonce-mismatch"])
+        else
+          let r := step s.tbl (.add t n)
+          ({ s with tbl := r.1 }, [showOut r.2])
+      | _, _, _, _ => bad s
+  | ["check", nonce, nc] =>
+      match bytesOfHex nonce, nc.toNat? with
+      | some n, some c =>
+        if n.length = 0 ∨ c ≥ U64 then bad s
+        else
+          match getNonceTimestamp n n.length with
+          | .fault => (s, ["fault"])
+          | .invalid => (s, ["wrong"])
+          | .ts t =>
+            let r := step s.tbl (.check n t c)
+            ({ s with tbl := r.1 }, [showOut r.2])
+      | _, _ => bad s
+  | ["checkt", nonce, t, nc] =>
+      match bytesOfHex nonce, t.toNat?, nc.toNat? with
+      | some n, some tt, some c =>
+        if n.length = 0 ∨ c ≥ U64 ∨ tt ≥ U64 then bad s
+        else
+          let r := step s.tbl (.check n tt c)
+          ({ s with tbl := r.1 }, [showOut r.2])
+      | _, _, _ => bad s
+  | ["ts", nonce] =>
+      match bytesOfHex nonce with
+      | some n =>
+        if n.length = 0 then bad s else
+        match getNonceTimestamp n n.length with
+        | .ts t => (s, [s!"ts {t}"])
+        | .invalid => (s, ["invalid"])
+        | .fault => (s, ["fault"])
+      | none => bad s
+  | ["tsz", nonce] =>
+      match bytesOfHex nonce with
+      | some n =>
+        match getNonceTimestamp (n ++ [0]) 0 with
+        | .ts t => (s, [s!"ts {t}"])
+        | .invalid => (s, ["invalid"])
+        | .fault => (s, ["fault"])
+      | none => bad s
+  | ["hash", d] =>
+      match bytesOfHex d with
+      | some b => (s, [s!"hash {fastSimpleHash b}"])
+      | none => bad s
+  | ["auth", algo, tmo, mx, nonce, nctxt, _resp] =>
+      match algo.toNat?.bind stdLenOf, tmo.toNat?, mx.toNat?, bytesOfHex nonce with
+      | some sl, some tm, some m, some n =>
+        if tm ≥ 2 ^ 32 ∨ m ≥ 2 ^ 32 then bad s
+        else
+          let txt : Bytes := if nctxt == "-" then [] else nctxt.toUTF8.toList
+          let r := presentText s.tbl s.now tm m sl n txt
+          ({ s with tbl := r.1 }, [showOut r.2])
+      | _, _, _, _ => bad s
+  | ["state"] =>
+      (s, [s!"n={s.tbl.length}" ++ String.join (s.tbl.map fun x => " " ++ showSlot x)])
+  | _ => bad s
+
+def main : IO Unit := runEngine ({ tbl := [], now := 0 } : DSt) stepLine
